@@ -237,7 +237,20 @@ func (self ValueList) iterReset() {
 }
 
 func (self ValueList) IntoIter() func() (Value, bool) {
-	return self.iterNext
+	// A loop visits the elements which the list had when the loop started, at a position of its own:
+	// the elements themselves (objects, inner lists) are the ones of the list, not copies.
+	items := append([]*Value{}, *self.Values...)
+	idx := 0
+
+	return func() (Value, bool) {
+		if idx >= len(items) {
+			return nil, false
+		}
+
+		item := *items[idx]
+		idx++
+		return item, true
+	}
 }
 
 func (self ValueList) Clone() *Value {
